@@ -2,10 +2,11 @@
    ExtrOcamlBasic only. *)
 From V.lib Require Import Base.
 From V.c07 Require Import C07Model C07Aes.
-From V.c06 Require Import C06Model.
+From V.c06 Require Import C06Model C06InitModel.
 Require Import ExtrOcamlBasic.
 Separate Extraction
   ssp scheme tkind tbox mchild frag
+  tenc_t sinf_t sechild sekind sentry mvchild init_protect decrypt_init
   decrypt_samples remove_encryption_boxes decrypt_frag_struct moof_size
   crypt_sample_cenc crypt_sample_cbcs
   aes128_encrypt aes128_decrypt
